@@ -11,7 +11,8 @@
    the runtime gives to a newly allocated array is an oracle [slack]: any
    function of the allocation.
 
-   Transcribed from rtpconn/webclient.go: remove, addnew (in-place append),
+   Transcribed from rtpconn/webclient.go: remove (all occurrences, each shifted
+   out in place), addnew (in-place append),
    changePermissionsAction, Init (copy = true: the code since 7db3860;
    copy = false: the code before it), leaveGroup (permissions = nil), and
    from group/description.go Permissions.Permissions, which returns the role
@@ -93,9 +94,10 @@ Definition alloc (h : heap) (l : list string) : heap * slice :=
 Definition alloc_nil (h : heap) : heap * slice :=
   ((h ++ [[]])%list, mkSlice (List.length h) 0).
 
-(* remove(v, l): l = append(l[:i], l[i+1:]...) for the first i with l[i] == v:
-   cells i+1..len-1 move one down IN PLACE, cell len-1 keeps its old value *)
-Definition go_remove (h : heap) (v : string) (s : slice) : heap * slice :=
+(* one round of the loop of remove(v, l): l = append(l[:i], l[i+1:]...) for
+   the first i with l[i] == v: cells i+1..len-1 move one down IN PLACE, cell
+   len-1 keeps its old value *)
+Definition go_remove_one (h : heap) (v : string) (s : slice) : heap * slice :=
   match index_of v (view h s) with
   | None => (h, s)
   | Some i =>
@@ -104,6 +106,24 @@ Definition go_remove (h : heap) (v : string) (s : slice) : heap * slice :=
                   ++ skipn (s_len s - 1) cs)%list in
       (upd (s_arr s) cs' h, mkSlice (s_arr s) (s_len s - 1))
   end.
+
+(* remove(v, l) since b21f80e: every occurrence is removed,
+     i := 0; for i < len(l) { if l[i] == v { l = append(l[:i], l[i+1:]...) } else { i++ } }
+   The elements before i are never equal to v, so each round removes the
+   first occurrence that is left; the list gets shorter by one per round, so
+   len(l) rounds suffice. *)
+Fixpoint go_remove_loop (fuel : nat) (h : heap) (v : string) (s : slice) : heap * slice :=
+  match fuel with
+  | O => (h, s)
+  | S f =>
+      match index_of v (view h s) with
+      | None => (h, s)
+      | Some _ => let '(h1, s1) := go_remove_one h v s in go_remove_loop f h1 v s1
+      end
+  end.
+
+Definition go_remove (h : heap) (v : string) (s : slice) : heap * slice :=
+  go_remove_loop (s_len s) h v s.
 
 (* addnew(v, l): l = append(l, v) unless present: in place when cap > len *)
 Definition go_addnew (h : heap) (v : string) (s : slice) : heap * slice :=
